@@ -187,6 +187,14 @@ def _helper_requests(p, kv, tier):
                 continue
             for d in dens:
                 out.append((kl, add, d))
+    # additional knots that coincide with a knot already in the list, or are named twice (the documented add_knot_list option)
+    if interior:
+        t = interior[0]
+        for kl in ([], [t], list(interior)):
+            for add in ([t], [t, t], [ADD[0], ADD[0]], [t, ADD[1]]):
+                for d in dens:
+                    out.append((kl, add, d))
+    out.append(([], [ADD[1], ADD[1]], 1))
     out.sort(key=lambda t: (len(t[0]) + len(t[1]), t[2]))
     return out
 
